@@ -48,6 +48,16 @@ def Page.fromBytes (w h : Nat) (bs : List UInt8) : Except PageErr Page :=
   if bs.length ≠ totalBytes w h then .error (.wrongLen w h (totalBytes w h) bs.length)
   else .ok ⟨w, h, bs⟩
 
+/-- Whether `Page::from_bytes` rejects a buffer, as a function of its length alone (what the driver evaluates for
+    buffers too large to build as a list). -/
+def Page.fromBytesLenErr (w h n : Nat) : Option PageErr :=
+  if n ≠ totalBytes w h then some (.wrongLen w h (totalBytes w h) n) else none
+
+theorem Page.fromBytes_verdict (w h : Nat) (bs : List UInt8) :
+    (match Page.fromBytes w h bs with | .error e => some e | .ok _ => none) = Page.fromBytesLenErr w h bs.length := by
+  unfold Page.fromBytes Page.fromBytesLenErr
+  by_cases h : bs.length ≠ totalBytes w h <;> simp [h]
+
 /-- `Page::id` (indexing `bytes[0]`). -/
 def Page.id (p : Page) : Except Panic UInt8 :=
   match p.bytes[0]? with
